@@ -82,13 +82,24 @@ def search(rep: C.Report, tier: str, broken):
                               {"eos": name, "vJ": h.vJ, "vm": float(vmj), "cs_minus": csj, "Tm": float(Tmj)}, finding_key="C06:CJ")
         except Exception as ex:  # noqa: BLE001
             rep.count("matchDeton at vJ raised " + type(ex).__name__)
-    # phase-temperature ranges that cut the window short (bag EOS with an artificial upper range)
-    cuts = [(1.06, None), (None, 1.05), (1.10, 1.07)] if tier == "quick" else [(1.04, None), (1.06, None), (None, 1.03), (None, 1.05), (1.10, 1.07), (1.03, 1.2)]
+    # phase-temperature ranges that cut the window short (bag/template EOS with artificial upper ranges).
+    # The cuts are derived from the real matching: T-(v1) and T+(v2) for chosen v1, v2, so that each phase alone, both with the
+    # high-T phase reached first, and both with the LOW-T phase reached first all occur.
+    e0 = models.BagEOS(ap=3.0, am=2.4, eps=0.2, mu=4.0, nu=4.0, Tn=1.0)
+    from WallGo.hydrodynamics import Hydrodynamics
+    h0 = Hydrodynamics(e0, 10.0, 0.01, 1e-6, 1e-10)
+    va, vb = 0.3 * h0.vJ + 0.05, 0.75 * h0.vJ
+    (_, _, TpA, TmA), (_, _, TpB, TmB) = h0.findMatching(va), h0.findMatching(vb)
+    cuts = [(float(TpA), None), (None, float(TmA)), (float(TpA), float(TmB)), (float(TpB), float(TmA))]
+    if tier == "thorough":
+        for _ in range(6):
+            v1, v2 = sorted((r.uniform(0.1, 0.95) * h0.vJ, r.uniform(0.1, 0.95) * h0.vJ))
+            (_, _, Tp1, Tm1), (_, _, Tp2, Tm2) = h0.findMatching(v1), h0.findMatching(v2)
+            cuts += [(float(Tp1), float(Tm2)), (float(Tp2), float(Tm1))]
     for hiH, hiL in cuts:
         e = models.BagEOS(ap=3.0, am=2.4, eps=0.2, mu=4.0, nu=4.0, Tn=1.0)
         e.freeEnergyHigh.maxPossibleTemperature = [hiH if hiH else np.inf, False]
         e.freeEnergyLow.maxPossibleTemperature = [hiL if hiL else np.inf, False]
-        from WallGo.hydrodynamics import Hydrodynamics
         h = Hydrodynamics(e, 10.0, 0.01, 1e-6, 1e-10)
         vmax = h.fastestDeflag()
         rep.case(key=("cut", hiH, hiL))
